@@ -166,6 +166,8 @@ def gen_api(r, idx, nmethods=6):
     for i in range(nmethods):
         spec["methods"].append(gen_method(r, i))
     spec["methods"].append(gen_method(r, nmethods, kind=r.pick(["nohttp", "nohttp", "custom"])))
+    if r.maybe(0.25):            # a client-streaming method WITH a binding: refused as well (model correspondence only)
+        spec["methods"].append(gen_method(r, nmethods + 1, kind="cstream", nbind=1))
     return spec
 
 
@@ -676,6 +678,19 @@ def reassemble(codec, m, k, pathvars, rec, numeric, sent):
             v = ""
         fixed.append((kk, v))
     pairs = fixed
+    # a default keyed by something that is not the field's JSON name (field names that are not lower snake_case)
+    miskeyed, kept = set(), []
+    for (kk, v) in pairs:
+        if find_field(desc, kk.split(".")[0]) is None:
+            cand = [fd for fd in required_scalars(desc, m) if fd.name != fd.name.lower() and fd.json_name.lower() == kk.lower()
+                    and is_default_text(fd, v)]
+            if cand:
+                miskeyed.add(cand[0].name)
+                problems.append(("required-default-key:non-snake-case-name", f"default of required field {cand[0].name} (JSON name "
+                                 f"{cand[0].json_name}) is sent as {kk}={v!r}"))
+                continue
+        kept.append((kk, v))
+    pairs = kept
     if b["body"] == "*" and pairs:
         defaults = [kk for (kk, v) in pairs if (fd := find_field(desc, kk)) is not None and fd.type in SCALAR_TYPES and is_default_text(fd, v)]
         if len(defaults) == len(pairs):
@@ -724,7 +739,7 @@ def reassemble(codec, m, k, pathvars, rec, numeric, sent):
     # --- required scalars not bound by path or body must be in the query
     bound_top = {p.split(".")[0] for (p, _t, _s) in b["vars"] if "." not in p}
     for fd in required_scalars(desc, m):
-        if fd.name in bound_top or b["body"] == "*" or b["body"] == fd.name:
+        if fd.name in bound_top or b["body"] == "*" or b["body"] == fd.name or fd.name in miskeyed:
             continue
         if not any(find_field(desc, kk.split(".")[0]) is fd for (kk, _v) in pairs):
             problems.append((f"required-default-missing:{reason}", f"required field {fd.name} is not bound by binding {k} and is absent from the query"))
@@ -735,6 +750,7 @@ RESERVED = None
 
 
 def load_reserved():
+    """the repo's table, used ONLY to label failure classes and to enumerate the sweep"""
     global RESERVED
     if RESERVED is None:
         from gapic.utils.reserved_names import RESERVED_NAMES
@@ -755,6 +771,9 @@ def classify_raise(m, val, res):
     exc = res.get("raised")
     if exc == "KeyError" and "body" in res.get("msg", "") and k is not None and not m["bindings"][k]["body"] and m["bindings"][0]["body"]:
         return "body-of-primary-binding-assumed:KeyError"
+    bd = m["bindings"][k]["body"] if k is not None else None
+    if exc == "ValueError" and bd and bd.endswith("_") and bd in load_reserved():
+        return "body-rename:reserved-word-ending-in-underscore"
     return f"call-raised:{exc}"
 
 
@@ -775,6 +794,9 @@ def oracle_call(ctx, codec, spec, m, plan, res, label):
     payload = {"spec": {"numeric": spec["numeric"], "transport": spec["transport"], "methods": [m]}, "plan": plan}
     val = plan["request"]
     server = res.get("server", [])
+    if m["kind"] == "cstream":
+        ctx.count("calls", "client-streaming-with-binding")      # the statement is silent; compared with the model only
+        return None
     if m["kind"] != "http":
         ctx.count("calls", f"no-usable-binding:{m['kind']}")
         if res.get("raised") != "NotImplementedError" or server:
@@ -809,9 +831,10 @@ def oracle_call(ctx, codec, spec, m, plan, res, label):
     best = None
     for (k, pv) in cands:
         probs = reassemble(codec, m, k, pv, rec, spec["numeric"], val)
-        if best is None or len(probs) < len(best[1]):
-            best = (k, probs)
-    k, probs = best
+        score = (any(key.startswith(("reassembly:lost", "reassembly:value", "reassembly:unparsable")) for key, _ in probs), len(probs))
+        if best is None or score < best[2]:
+            best = (k, probs, score)
+    k, probs, _ = best
     ctx.count("calls", "sent")
     ctx.count("binding_used", "primary" if k == 0 else "additional")
     ctx.count("body_kind", {None: "none", "*": "star"}.get(m["bindings"][k]["body"], "field"))
@@ -850,6 +873,16 @@ def run_api(ctx, r, spec, label, ncalls=None, model=True, plans=None):
     codec = rpc.Codec(files)
     if model:
         t2_schema(ctx, spec, svc)
+    for m in spec["methods"]:
+        ctx.count("bindings_per_method", len(m["bindings"]) if m["kind"] == "http" else 0)
+        for b in m["bindings"] if m["kind"] == "http" else []:
+            ctx.count("verb", b["verb"])
+            for (pth, _t, tm) in b["vars"]:
+                ctx.count("path_variable", ("nested" if "." in pth else "top") + ("+template" if tm else ""))
+        for fs in m["fields"]:
+            if fs.get("required"):
+                ctx.count("required_field_kind", ("repeated " if fs.get("repeated") else "") + fs.get("type", "map"))
+    ctx.count("numeric_enums", spec["numeric"])
     res, err = genrun.try_generate(req)
     if err:
         ctx.fail("generation-crash:" + err[0], f"generator raised {err[0]}: {err[1]}", {"spec": spec})
@@ -864,9 +897,13 @@ def run_api(ctx, r, spec, label, ncalls=None, model=True, plans=None):
         for p in plans:
             m = next(x for x in spec["methods"] if x["name"] == p["method"])
             wm = svc.methods[m["name"]]
-            calls.append({"method": snake(wm.client_method_name), "mode": p["mode"], "py_request": rpc.py_type(wm.input),
-                          "request_b64": codec.encode_b64(in_full(m), p["request"]),
-                          "script": [{"status": 200, "body": json.dumps(p["reply_json"])}]})
+            call = {"method": snake(wm.client_method_name), "mode": p["mode"], "py_request": rpc.py_type(wm.input),
+                    "request_b64": codec.encode_b64(in_full(m), p["request"]),
+                    "script": [{"status": 200, "body": json.dumps(p["reply_json"])}]}
+            if m["kind"] == "cstream":
+                call["mode"] = "request-none"
+                call["stream_requests"] = [call["request_b64"]]
+            calls.append(call)
         out = libhost.run(root, [{"op": "rest_session", "client": loc["client"], "transport": loc["rest"], "calls": calls}], timeout=600)
         if "calls" not in out[0]:
             ctx.fail("session-failed", f"REST session failed: {str(out[0])[-600:]}", {"spec": spec})
@@ -1247,7 +1284,8 @@ def run(ctx):
     ctx.assume("fields left to the query string are scalar, repeated scalar, or non-repeated message without map/repeated-message/Struct "
                "members (google.api.http's own rule; flatten_query_params raises otherwise); set-but-empty sub-messages are not generated")
     ctx.assume("a required ENUM field is not a 'required scalar field': the template deliberately writes {} for it (nothing is sent)")
-    ctx.assume("field names are lower snake_case (style guide); for names with capitals to_camel_case differs from the JSON name")
+    ctx.assume("generated field names are lower snake_case (style guide); the excluded point (a required field called `userID`: "
+               "to_camel_case differs from the JSON name) is replayed from the corpus and is a known finding")
     ctx.assume("reserved words are not used in NESTED path variables ({book.class=…} makes client.py unparsable: C12, DESIGN 9-F1)")
     ctx.assume("LRO, server-streaming framing and custom verbs with usable additional bindings are not exercised (C08 / not covered)")
     load_reserved()
@@ -1260,6 +1298,7 @@ def run(ctx):
     else:
         for k in range(0, len(words), 10):
             sweep(ctx, words[k:k + 10], f"w{k}")
+        ctx.exhaustive = {"reserved_words_as_path_variable_body_field_query_field": len(words)}
     r = ctx.rng("apis")
     for a in range(ctx.n(18, 330)):
         run_api(ctx, r, gen_api(r, a), f"api{a}")
